@@ -260,6 +260,7 @@ class System(object):
             state=hdl._state,
             in_conn=bool(hdl._in_conn), in_sess=bool(hdl._in_sess), in_term=bool(hdl._in_term),
             closed=(hdl.get_app_socket() is None),
+            rx_alive=bool(self.ctx.find(kind='io', name='_avail_rx_notls', owner=hdl)),
             rx_buf=bytes(hdl._Messenger__rx_buf),
             msg_tx_buf=bytes(hdl._Messenger__tx_buf),
             conn_tx_buf=bytes(hdl._Connection__tx_buf),
